@@ -166,6 +166,21 @@ CHECKS['C15'] = dict(
          'two-phase clock stub. OP_EQUAL is modelled with byte-xor as an uninterpreted function plus the lemma xor(a,b)=0 <=> a=b. The tweaked-PTLC '
          'signature identity (sign_with_scalar on x+t) belongs to the group-algebra checks of C17.',
     technique=TECH)
+CHECKS['C17'] = dict(
+    text='The four adapter instructions, clamp_scalar, H_small, sign_with_scalar and the adapter builders run from the real source over the '
+         'generic-group model (points as discrete logs mod L, one uninterpreted function for scalar multiplication, SHA-512 uninterpreted) with '
+         'symbolic 32-byte seed and tweak and a symbolic message: the adapter made for T = t*G passes the check, an altered sa fails it, '
+         'decryption yields (R+T, sa+t) which satisfies the RFC 8032 verification equation under the signer key (also through the real '
+         'OP_CHECK_SIG), t = s - sa mod L, the PRIVATE variant behaves like the PUBLIC one, the adapter witness / lock builders agree on the byte '
+         'layout and accept each other, and the tweaked PTLC witness unlocks the tweaked lock (the C15 clause). Each identity is an unsat query '
+         'over 256-bit integers.',
+    design_ref='DESIGN.md section 4 C17',
+    note='Trusted: SX engine, z3, the generic-group idealisation (nothing about libsodium encodings, small-order points, cofactor), the '
+         'assumption that no intermediate scalar / point is neutral. If the solver answers unknown for an obligation the check replays random '
+         'candidate inputs on the real libsodium-backed code: a failing candidate is reported as a violation, otherwise the run is inconclusive '
+         '(exit 2), never a pass. The negative clauses (adapter itself / wrong scalar not valid; altered R, T, message, key) are outside the '
+         'claim. Finding F8 was repaired in /repo (fix: commit d6af232).',
+    technique=TECH)
 NOT_APPLICABLE = {}
 NOTES = ('Exit codes of every check: 0 held on everything explored; 1 + VIOLATION line for a counterexample that was '
          'replayed on the real package and is not a listed known finding; 2 harness error / unsupported construct / '
